@@ -26,6 +26,7 @@ var propRules = map[string][]ruleSpec{
 		{"R3", "operands (bias!) not modified (E2)", ruleR3},
 		{"R21", "attribute state read-only after Init", ruleR21},
 		{"R11o", "kernel-shape readers run after the dilation step (K6)", ruleConvOrdering},
+		{"R11p", "derived paddings are never negative (K7)", ruleConvPadsNonNeg},
 		{"R24", "defaults replace optional inputs only when absent", ruleOptionalDefaults},
 	},
 	"C04": {
@@ -148,7 +149,7 @@ var propDocs = map[string]propDoc{
 		Assumptions: contractBase,
 	},
 	"C05": {
-		Explanation: "R11 on Conv's methods. K1: every IndexAddr whose list has a known kind (FULL = Shape()/coords/make(len(FULL)), SPATIAL = strides/dilations/kernelShape/FULL[2:]/variadic coords, PADS = pads/make(2*spatial)) is classified by its index kind (CONST, NONSPATIAL = loop < 2, SPATIAL = loop < spatial count / range over a SPATIAL list, SPATIAL+2, SPATIAL+nSpatial, FULL-RANGE, PADS-RANGE) against a legality matrix. K2: per sliding-window function and spatial axis k: window start phi from 0 step strides[k] bounded by Shape(padded)[2+k]; output index start/strides[k] compared with outputShape[2+k] and stored at SetAt position 2+k. K3: batch index = window sample = SetAt position 0 over x.Shape()[0]; kernel[m:m+1] stored at position 1. K4: all AutoPadSetting constants are compared against in Apply's closure (at most one else-class) and Init rejects other strings. K6: every method reading the kernel's Shape() to size paddings/outputs receives the dilated kernel (the dilation call dominates it). R24: the bias default only replaces an absent bias. R8 attributes; R3 bias and kernel not modified; R21 Apply works on a copy of the operator. NOT decided: the multiply-accumulate, dilation zero insertion, padding by Concat.",
+		Explanation: "R11 on Conv's methods. K1: every IndexAddr whose list has a known kind (FULL = Shape()/coords/make(len(FULL)), SPATIAL = strides/dilations/kernelShape/FULL[2:]/variadic coords, PADS = pads/make(2*spatial)) is classified by its index kind (CONST, NONSPATIAL = loop < 2, SPATIAL = loop < spatial count / range over a SPATIAL list, SPATIAL+2, SPATIAL+nSpatial, FULL-RANGE, PADS-RANGE) against a legality matrix. K2: per sliding-window function and spatial axis k: window start phi from 0 step strides[k] bounded by Shape(padded)[2+k]; output index start/strides[k] compared with outputShape[2+k] and stored at SetAt position 2+k. K3: batch index = window sample = SetAt position 0 over x.Shape()[0]; kernel[m:m+1] stored at position 1. K4: all AutoPadSetting constants are compared against in Apply's closure (at most one else-class) and Init rejects other strings. K7: every value stored into a paddings list is provably >= 0 (constants, clamps, a - a/2 forms): a negative derived padding makes padInput request a negative dimension (panic). K6: every method reading the kernel's Shape() to size paddings/outputs receives the dilated kernel (the dilation call dominates it). R24: the bias default only replaces an absent bias. R8 attributes; R3 bias and kernel not modified; R21 Apply works on a copy of the operator. NOT decided: the multiply-accumulate, dilation zero insertion, padding by Concat.",
 		Assumptions: contractBase,
 	},
 	"C06": {
